@@ -298,6 +298,9 @@ func clipTail(s string, n int) string {
 
 func loadFindings() []Finding {
 	var fs []Finding
+	if os.Getenv("VERIF_NO_KNOWN") != "" {
+		return nil // triage aid: treat listed findings as ordinary violations (minimise them)
+	}
 	b, err := os.ReadFile(filepath.Join(verifDir, "known_findings.json"))
 	if err != nil {
 		return nil
